@@ -162,8 +162,10 @@ theorem pushNone_no_panic : ∀ (b : B), (pushNone b).isPanic = false
     exact bind_no_panic _ _ (pushDefaultKAll_no_panic fs 1) (fun _ => rfl)
   | .dictionary _ idx _ _ => by
     unfold pushNone; rw [ctx_isPanic]
-    refine bind_no_panic _ _ ?_ (fun _ => rfl)
-    rw [ctx_isPanic]; exact pushNone_no_panic idx
+    split
+    · rfl
+    · refine bind_no_panic _ _ ?_ (fun _ => rfl)
+      rw [ctx_isPanic]; exact pushNone_no_panic idx
   | .union _ _ _ _ _ => by unfold pushNone; rw [ctx_isPanic]; rfl
 
 end SaModel.Lemmas.C16
